@@ -21,11 +21,21 @@ git apply -R $D/patch.diff
 go test -vet=off -count=1 -run 'Seeded' ./$PKG/ >/tmp/seed-demo-without.log 2>&1 && echo "demo without change: PASS (expected)" || echo "demo without change: FAIL (unexpected)"
 cd /verif
 git -C /repo worktree remove --force $WT
-# run the check against /repo with the change applied
-git -C /repo apply $D/patch.diff || { echo "PATCH DOES NOT APPLY TO /repo"; exit 2; }
-./bin/govc check --property $P --tier quick --no-evidence > /tmp/seed-check.log 2>&1; rc=$?
-git -C /repo checkout -- .
+# run the check with the change applied: against /repo itself (apply, check, undo), or - with
+# SEEDED_SCRATCH=1, for use while another check is reading /repo - against a scratch copy of /repo
+if [ "${SEEDED_SCRATCH:-}" = "1" ]; then
+  SR=$(mktemp -d /tmp/seedrepo-XXXX); cp -r /repo/. $SR/ && rm -rf $SR/.git
+  (cd $SR && patch -p1 -s < $D/patch.diff) || { echo "PATCH DOES NOT APPLY TO THE COPY"; rm -rf $SR; exit 2; }
+  ${GOVC:-./bin/govc} check --property $P --tier quick --no-evidence --repo $SR > /tmp/seed-check.log 2>&1; rc=$?
+  REPLAY_REPO="--repo $SR"
+else
+  git -C /repo apply $D/patch.diff || { echo "PATCH DOES NOT APPLY TO /repo"; exit 2; }
+  ./bin/govc check --property $P --tier quick --no-evidence > /tmp/seed-check.log 2>&1; rc=$?
+  git -C /repo checkout -- .
+  REPLAY_REPO=""
+fi
 echo "check exit: $rc"
 grep "^VIOLATION\|^KNOWN\|^property" /tmp/seed-check.log | cut -c1-400
 for f in $(grep -o 'replay=[^ ]*' /tmp/seed-check.log | cut -d= -f2 | head -3); do ./bin/govc replay $f | grep "confirmed\|replay:" | cut -c1-300; done
+[ -n "${SR:-}" ] && rm -rf $SR
 rm -rf /verif/out/replay
